@@ -67,7 +67,8 @@ fn transformer(c: &str) -> Value {
 fn rule_for(call: &Value) -> Value {
     let long = "a".repeat(10_000);
     let marker_regex = match cls(call, "marker_regex") {
-        "empty" => "", "open_paren" => "(", "open_class" => "[a-", "anchors" => "^a$", "named_group" => "(?P<x>a)", "dot_star" => ".*",
+        "empty" => "", "open_paren" => "(", "open_class" => "[a-", "anchors" => "^a$", "named_group" => "(?P<x>a)", "optional_named_group" => "(?P<x>zz)?[a-z\u{e9}\u{1F600}]*", "alternation_named_groups" => "(?P<x>zzz)|(?P<y>[a-z]+)|(?P<z>.*)",
+        "nested_optional_group" => "(?:(?P<x>q)(?P<y>r)?)?[^/]*", "dot_star" => ".*",
         "huge_repeat" => "a{99999}{99999}", "backref" => "(a)\\1", "unicode_class" => "\\p{Greek}+", _ => "[^/.]+",
     };
     let path = match cls(call, "path") {
